@@ -114,6 +114,24 @@ func installBuiltins(it *Interp) {
 		}
 		return canon.Li(out...), nil
 	})
+	it.def("conj", func(it *Interp, a []*canon.Node) (*canon.Node, *Err) {
+		if len(a) < 2 {
+			return nil, unspecified("conj with fewer than two arguments")
+		}
+		switch a[0].K {
+		case canon.List:
+			out := []*canon.Node{}
+			for i := len(a) - 1; i >= 1; i-- {
+				out = append(out, a[i])
+			}
+			return canon.Li(append(out, a[0].L...)...), nil
+		case canon.Vec:
+			return canon.Ve(append(append([]*canon.Node{}, a[0].L...), a[1:]...)...), nil
+		case canon.Int, canon.Bool, canon.Sym, canon.Opaque:
+			return nil, berr("conj type")
+		}
+		return nil, unspecified("conj onto map/set/nil/string")
+	})
 	it.def("first", func(it *Interp, a []*canon.Node) (*canon.Node, *Err) {
 		if len(a) != 1 {
 			return nil, berr("first arity")
